@@ -194,6 +194,8 @@ impl<T> RwLock<T> {
         drop(g);
         PROBES.with(|p| p.borrow_mut().reads += 1);
         event(self.id, LockEventKind::ReadAcquired);
+        // scheduling point while the lock is held: other tasks get to see it held
+        shuttle::thread::yield_now();
         match self.inner.try_read() {
             Ok(g) => Ok(RwLockReadGuard { lock: self, inner: Some(g), sim: true }),
             Err(TryLockError::Poisoned(p)) => Err(PoisonError::new(RwLockReadGuard {
@@ -245,6 +247,7 @@ impl<T> RwLock<T> {
         drop(g);
         PROBES.with(|p| p.borrow_mut().writes += 1);
         event(self.id, LockEventKind::WriteAcquired);
+        shuttle::thread::yield_now();
         match self.inner.try_write() {
             Ok(g) => Ok(RwLockWriteGuard { lock: self, inner: Some(g), sim: true }),
             Err(TryLockError::Poisoned(p)) => Err(PoisonError::new(RwLockWriteGuard {
